@@ -801,6 +801,15 @@ def m_vec_into_iter(it, S, t, callee, args):
     return it.with_len(R, ln)
 
 
+@model("core::iter::traits::iterator::Iterator::collect")
+def m_collect(it, S, t, callee, args):
+    # collects exactly the items the iterator yields, in order
+    R = ("model", "collect", args[0])
+    set_ty(R, tykey(Place(t["dest"]).ty))
+    ln = project(args[0], (("len",),))
+    return it.with_len(R, ln)
+
+
 @model("core::iter::traits::iterator::Iterator::enumerate")
 def m_enumerate(it, S, t, callee, args):
     # Enumerate yields as many items as the wrapped iterator
